@@ -3,7 +3,7 @@ from fractions import Fraction
 import numpy as np
 from ..runner import Acc, HarnessError
 from ..refmodel import Fmt, add_fmt, mul_fmt, quantize_code
-from ..common import Fxp, fx, codes, flags, fmt_of, reset_class_state, obs, build
+from ..common import Fxp, fx, codes, flags, fmt_of, reset_class_state, obs, build, AGED
 
 ID = 'C07'
 RULE = ('cases = (format pair, operator, call route, code pair) executed with broadcasting (column x row of codes) and as scalars; the result '
@@ -63,6 +63,11 @@ def judge_pair(acc, fxm, fym, xs, ys, op, route, shape_mode, part, by='raw', pre
         shx, shy = (), (len(ys),)
         pairs = [(xs[0], b) for b in ys]
         eshape = (len(ys),)
+    elif shape_mode == 'self':
+        # the SAME object on both sides (x op x); fxm == fym, ys ignored
+        shx = shy = (len(xs),)
+        pairs = [(a, a) for a in xs]
+        eshape = (len(xs),)
     else:
         shx, shy = (), ()
         pairs = [(xs[0], ys[0])]
@@ -81,7 +86,7 @@ def judge_pair(acc, fxm, fym, xs, ys, op, route, shape_mode, part, by='raw', pre
             y = build(fym, [b for b in ys for a in xs], shy, by).T         # y.T[i, j] == ys[j]
         else:
             x = build(fxm, xs, shx, by)
-            y = build(fym, ys, shy, by)
+            y = x if shape_mode == 'self' else build(fym, ys, shy, by)
         if prelude:
             # earlier operations on the same operands with OTHER result sizes must not influence the optimal-sizing result
             fx_fn = {'+': fx.add, '-': fx.sub, '*': fx.mul}[op]
@@ -310,6 +315,14 @@ def run_shard(sh):
                 judge_pair(acc, fxm, fym, xs, ys, op, 'operator', 'outer', 'a', 'value')
                 if not big:
                     judge_pair(acc, fxm, fym, xs, ys, op, 'operator', 'outer_T', 'a')                  # transposed 2-d operands
+                    # operands reached through a history (common.build_aged): every history for the smallest formats, one per
+                    # (pair, operator) in rotation above
+                    hows = AGED if max(fxm.n_word, fym.n_word) <= 2 else (AGED[(sh['i'] + fs.index(fym) + OPS.index(op)) % len(AGED)],)
+                    for how in hows:
+                        judge_pair(acc, fxm, fym, xs, ys, op, ROUTES[(fs.index(fym) + OPS.index(op)) % 3], 'outer', 'a', how)
+                if fxm == fym:
+                    judge_pair(acc, fxm, fym, xs, xs, op, 'operator', 'self', 'a')
+                    judge_pair(acc, fxm, fym, xs, xs, op, 'function', 'self', 'a', 'value')
                 if big:
                     continue
                 judge_pair(acc, fxm, fym, xs, [ys[0]], op, 'operator', 'vec_scalar', 'a')
@@ -330,6 +343,8 @@ def run_shard(sh):
                         acc.skipped += 1
                         continue
                     judge_pair(acc, fxm, fym, xs, ys, op, 'operator', 'outer', 'b')
+                    if fxm == fym:
+                        judge_pair(acc, fxm, fym, xs, xs, op, 'operator', 'self', 'b')
     else:
         # size of the last level is only known by building it; slice j of n by index
         j, n = sh['slice']
